@@ -21,8 +21,13 @@ pub struct HcCase {
     /// 0 first available, 1 round robin, 2 prefer healthy, 3 custom (last eligible), 4 custom (declines)
     pub strategy: u8,
     /// per resource: results of successive checks (0 healthy, 1 degraded, 2 unhealthy, 3 unknown,
-    /// 4 slower than the timeout); the last entry repeats
+    /// 4 slower than the timeout, 5 healthy after `slow_ms`, 6 unhealthy after `slow_ms`); the last
+    /// entry repeats
     pub scripts: Vec<Vec<u8>>,
+    /// duration of the slow checks (kept below the timeout); may exceed the interval when the
+    /// timeout does
+    #[serde(default)]
+    pub slow_ms: u64,
     /// after each round: (use get_usable, number of calls)
     pub bursts: Vec<(bool, u8)>,
 }
@@ -32,19 +37,29 @@ fn case_strategy(tier: Tier) -> BoxedStrategy<HcCase> {
         Tier::Quick => 24usize,
         Tier::Thorough => 40,
     };
-    let result = prop_oneof![4 => Just(0u8), 2 => Just(1u8), 4 => Just(2u8), 2 => Just(3u8), 2 => Just(4u8)];
+    let result = prop_oneof![
+        4 => Just(0u8),
+        2 => Just(1u8),
+        4 => Just(2u8),
+        2 => Just(3u8),
+        2 => Just(4u8),
+        1 => Just(5u8),
+        1 => Just(6u8),
+    ];
     (
         1u32..=4,
         1u32..=4,
         10u64..=50,
-        1u64..=9,
+        // mostly well below the interval; sometimes above it (a check may then outlast a tick)
+        prop_oneof![3 => 1u64..=9, 2 => 10u64..=80],
         0u64..=20,
         0u8..5,
         prop::collection::vec(prop::collection::vec(result, 5..=max_checks), 1..=5),
         prop::collection::vec((any::<bool>(), 1u8..=9), 1..=max_checks),
+        1u64..=70,
     )
         .prop_map(
-            |(failure_threshold, success_threshold, interval, timeout, initial_delay, strategy, scripts, bursts)| HcCase {
+            |(failure_threshold, success_threshold, interval, timeout, initial_delay, strategy, scripts, bursts, slow_ms)| HcCase {
                 failure_threshold,
                 success_threshold,
                 interval,
@@ -53,6 +68,7 @@ fn case_strategy(tier: Tier) -> BoxedStrategy<HcCase> {
                 strategy,
                 scripts,
                 bursts,
+                slow_ms,
             },
         )
         .boxed()
@@ -72,6 +88,7 @@ struct Checker {
     counters: Mutex<Vec<usize>>,
     log: Arc<Mutex<Vec<CheckEv>>>,
     timeout: u64,
+    slow_ms: u64,
 }
 
 struct CheckGuard {
@@ -104,6 +121,7 @@ impl HealthChecker<usize> for Checker {
         let result = *self.scripts[res].get(k).or(self.scripts[res].last()).unwrap_or(&0);
         let log = self.log.clone();
         let timeout = self.timeout;
+        let slow = self.slow_ms.min(timeout.saturating_sub(1));
         log.lock().unwrap().push(CheckEv::Start {
             res,
             k,
@@ -119,6 +137,14 @@ impl HealthChecker<usize> for Checker {
             if result == 4 {
                 tokio::time::sleep(Duration::from_millis(timeout + 3)).await;
             }
+            if (result == 5 || result == 6) && slow > 0 {
+                tokio::time::sleep(Duration::from_millis(slow)).await;
+            }
+            let result = match result {
+                5 => 0,
+                6 => 2,
+                r => r,
+            };
             g.served = true;
             log.lock().unwrap().push(CheckEv::Served {
                 res,
@@ -163,6 +189,7 @@ async fn interp(case: &HcCase) -> Verdict {
         counters: Mutex::new(vec![0; n]),
         log: log.clone(),
         timeout: case.timeout,
+        slow_ms: case.slow_ms,
     };
     let strategy = match case.strategy {
         0 => SelectionStrategy::FirstAvailable,
@@ -207,6 +234,11 @@ async fn interp(case: &HcCase) -> Verdict {
         n
     ];
     let mut consumed = 0usize;
+    // "consecutive checks" means consecutive in check order: a result is folded into the machine
+    // only after every earlier check of the same resource (None = timed out / dropped)
+    let mut next_k = vec![0usize; n];
+    let mut ready: std::collections::HashMap<(usize, usize), Option<u8>> = Default::default();
+    let mut saw_overlap = false;
     let mut flips = vec![0usize; n];
     let mut saw_unknown_or_timeout_in_run = false;
     let rounds = case.scripts.iter().map(|s| s.len()).max().unwrap_or(5);
@@ -224,7 +256,29 @@ async fn interp(case: &HcCase) -> Verdict {
         while consumed < evs.len() {
             match &evs[consumed] {
                 CheckEv::Start { .. } => {}
-                CheckEv::Served { res, result, .. } => {
+                CheckEv::Served { res, k, result, .. } => {
+                    ready.insert((*res, *k), Some(*result));
+                }
+                CheckEv::Dropped { res, k, .. } => {
+                    ready.insert((*res, *k), None);
+                }
+            }
+            consumed += 1;
+        }
+        let mut folding: Vec<(usize, Option<u8>)> = vec![];
+        for r in 0..n {
+            while let Some(x) = ready.remove(&(r, next_k[r])) {
+                folding.push((r, x));
+                next_k[r] += 1;
+            }
+        }
+        if !ready.is_empty() {
+            // a later check of some resource finished while an earlier one is still running
+            saw_overlap = true;
+        }
+        for (res, outcome) in &folding {
+            match outcome {
+                Some(result) => {
                     new_completed = true;
                     let m = &mut model[*res];
                     let before = m.status;
@@ -258,7 +312,7 @@ async fn interp(case: &HcCase) -> Verdict {
                         flips[*res] += 1;
                     }
                 }
-                CheckEv::Dropped { res, .. } => {
+                None => {
                     new_completed = true;
                     let m = &mut model[*res];
                     let before = m.status;
@@ -275,7 +329,6 @@ async fn interp(case: &HcCase) -> Verdict {
                     }
                 }
             }
-            consumed += 1;
         }
         // is any check in progress?
         let started = evs.iter().filter(|e| matches!(e, CheckEv::Start { .. })).count();
@@ -385,6 +438,12 @@ async fn interp(case: &HcCase) -> Verdict {
     }
     if rr_bursts > 0 {
         classes.push("round_robin_burst");
+    }
+    if case.timeout > case.interval {
+        classes.push("timeout_longer_than_interval");
+    }
+    if saw_overlap {
+        classes.push("checks_of_one_resource_overlapped");
     }
     Verdict {
         violations,
